@@ -56,13 +56,11 @@ def modelReadGrammarSites : List Nat := [6, 5, 7, 4, 4, 4, 9, 10, 11, 4, 4, 12, 
 productive), loop -/
 def modelCheckGrammarSites : List Nat := [15, 14, 15, 16]
 
-/-- the checks of `yaep_read_grammar` stand in the source in the order the model performs them:
-a check that is added, removed or moved breaks this obligation -/
+/-- the checks of `yaep_read_grammar` (with `check_grammar` and any helper expanded at its call
+site) stand in the source in the order the model performs them: a check that is added, removed
+or moved breaks this obligation -/
 theorem generated_readGrammar_sites :
-    Generated.readGrammarErrorSites.map codeOfMacro = modelReadGrammarSites := by decide
-
-theorem generated_checkGrammar_sites :
-    Generated.checkGrammarErrorSites.map codeOfMacro = modelCheckGrammarSites := by decide
+    Generated.readGrammarErrorSites.map codeOfMacro = modelReadGrammarSites ++ modelCheckGrammarSites := by decide
 
 /-! ## the description scanner -/
 
